@@ -49,3 +49,98 @@ def hashable_ok(seqs, k, maxlen=8):
     if k == 2:
         return m <= maxlen
     return m <= 3
+
+
+# ---------------------------------------------------------------------------
+# custom distances: exactly symmetric, d(x, x) = 0 (computed on the sorted pair
+# so that argument order cannot change a float). Module-level so that they are
+# inherited by forked pool workers.
+# ---------------------------------------------------------------------------
+from vlib import oracles as _O  # noqa: E402
+
+_BLOCKS = {c: i // 4 for i, c in enumerate(G.AA)}
+
+
+def _sorted(a, b):
+    a, b = str(a), str(b)
+    return (a, b) if a <= b else (b, a)
+
+
+def cd_half(a, b):
+    a, b = _sorted(a, b)
+    return 0.5 * _O.lev(a, b)
+
+
+def cd_double(a, b):
+    a, b = _sorted(a, b)
+    return 2 * _O.lev(a, b)
+
+
+def cd_triple(a, b):
+    a, b = _sorted(a, b)
+    return 3 * _O.lev(a, b)
+
+
+def cd_lenpen(a, b):
+    a, b = _sorted(a, b)
+    return _O.lev(a, b) + 1.5 * abs(len(a) - len(b))
+
+
+def cd_discrete(a, b):
+    return 0 if str(a) == str(b) else 1
+
+
+def cd_blocks(a, b):
+    """Substitution-cost matrix: 0.25 inside a block of 4 letters, 1.75 across, gap 2.5."""
+    a, b = _sorted(a, b)
+
+    def cost(x, y):
+        if x == y:
+            return 0.0
+        return 0.25 if _BLOCKS.get(x, -1) == _BLOCKS.get(y, -2) else 1.75
+    la, lb = len(a), len(b)
+    prev = [j * 2.5 for j in range(lb + 1)]
+    for i in range(1, la + 1):
+        cur = [i * 2.5] + [0.0] * lb
+        for j in range(1, lb + 1):
+            cur[j] = min(prev[j - 1] + cost(a[i - 1], b[j - 1]), prev[j] + 2.5, cur[j - 1] + 2.5)
+        prev = cur
+    return prev[lb]
+
+
+def cd_int_blocks(a, b):
+    return int(round(4 * cd_blocks(a, b)))
+
+
+CUSTOM = {"half": cd_half, "double": cd_double, "triple": cd_triple, "lenpen": cd_lenpen,
+          "discrete": cd_discrete, "blocks": cd_blocks, "int_blocks": cd_int_blocks}
+
+
+def custom_neighbours_self(seqs, k, name, maxc):
+    f = CUSTOM[name]
+    out = []
+    for i in range(len(seqs)):
+        for j in range(len(seqs)):
+            if i == j:
+                continue
+            if abs(len(seqs[i]) - len(seqs[j])) > k:
+                continue
+            if _O.lev(seqs[i], seqs[j]) <= k:
+                c = f(seqs[i], seqs[j])
+                if c <= maxc:
+                    out.append((i, j, c))
+    return out
+
+
+def custom_neighbours_cross(queries, refs, k, name, maxc):
+    f = CUSTOM[name]
+    out = []
+    for q, a in enumerate(queries):
+        for r, b in enumerate(refs):
+            if abs(len(a) - len(b)) > k:
+                continue
+            if _O.lev(a, b) <= k:
+                c = f(a, b)
+                if c <= maxc:
+                    out.append((q, r, c))
+    return out
